@@ -87,15 +87,64 @@ def resolve_module_sql(m: pf.Module) -> int:
         a = e.call.args[0]
         if isinstance(a, ast.Name) and e.fn is not None:
             a = pf.resolve_expr(e.fn, a)
-        if isinstance(a, ast.Name) and len(consts.get(a.id, [])) == 1 and pf.const_str(consts[a.id][0]) is not None:
+        if isinstance(a, ast.Name) and len(consts.get(a.id, [])) == 1 and concat_str(consts[a.id][0]) is not None:
             if e.fn is not None and any(isinstance(x, ast.Name) and x.id == a.id and isinstance(x.ctx, (ast.Store, ast.Del)) for x in ast.walk(e.fn)):
                 continue
-            e.sql_text = pf.const_str(consts[a.id][0])
+            e.sql_text = concat_str(consts[a.id][0])
             e.how = 'variable'
             e._stmts = None
             e.parse_error = None
             n += 1
     return n
+
+
+def concat_str(e: ast.AST) -> Optional[str]:
+    """a string literal, or string literals joined by `+` (literal folding only)."""
+    t = pf.const_str(e)
+    if t is not None:
+        return t
+    if isinstance(e, ast.BinOp) and isinstance(e.op, ast.Add):
+        a, b = concat_str(e.left), concat_str(e.right)
+        if a is not None and b is not None:
+            return a + b
+    return None
+
+
+def sql_alternatives(m: pf.Module, e) -> Optional[List[str]]:
+    """The SQL texts an execute-style call (an sqlfront.Embedded) may send when engines/sqlfront.py left it opaque: a conditional expression between texts, a
+    name bound once in the function or in an enclosing function (closure) or at module level, literal concatenation.  None when some alternative is not a text."""
+    if e.sql_text is not None:
+        return [e.sql_text]
+    par = m.parents()
+    scopes: List[ast.AST] = []
+    cur: Optional[ast.AST] = e.call
+    while cur is not None:
+        if isinstance(cur, (ast.FunctionDef, ast.AsyncFunctionDef)):
+            scopes.append(cur)
+        cur = par.get(cur)
+
+    def lookup(name: str) -> Optional[ast.AST]:
+        for sc in scopes:
+            vals = pf.assignments(sc).get(name, [])   # type: ignore[arg-type]
+            if vals:
+                return vals[0] if len(vals) == 1 and isinstance(vals[0], ast.expr) else None
+        vals = [st.value for st in m.tree.body if isinstance(st, ast.Assign) and any(isinstance(t, ast.Name) and t.id == name for t in st.targets)]
+        return vals[0] if len(vals) == 1 else None
+
+    def alts(x: ast.AST, depth: int) -> Optional[List[str]]:
+        if depth <= 0:
+            return None
+        t = concat_str(x)
+        if t is not None:
+            return [t]
+        if isinstance(x, ast.IfExp):
+            a, b = alts(x.body, depth - 1), alts(x.orelse, depth - 1)
+            return a + b if a is not None and b is not None else None
+        if isinstance(x, ast.Name):
+            d = lookup(x.id)
+            return alts(d, depth - 1) if d is not None else None
+        return None
+    return alts(e.call.args[0], 4) if e.call.args else None
 
 
 def module_int(m: pf.Module, e: ast.AST) -> Optional[int]:
@@ -489,7 +538,36 @@ class IdFlow:
         self.sinks.append(Sink(table, job, parent, self._quant[-1] if self._quant else None, st.lineno))
         return True
 
+    def _sink_extend(self, st: ast.stmt) -> bool:
+        """`rows.extend([(.., p) for p in <parent list>])` = `for p in <parent list>: rows.append((.., p))`."""
+        if not (isinstance(st, ast.Expr) and isinstance(st.value, ast.Call) and isinstance(st.value.func, ast.Attribute) and st.value.func.attr == 'extend'
+                and isinstance(st.value.func.value, ast.Name) and st.value.func.value.id in self.sinks_spec and len(st.value.args) == 1 and not st.value.keywords):
+            return False
+        a = st.value.args[0]
+        if not (isinstance(a, (ast.ListComp, ast.GeneratorExp)) and len(a.generators) == 1 and not a.generators[0].ifs and not a.generators[0].is_async
+                and isinstance(a.generators[0].target, ast.Name) and isinstance(a.elt, ast.Tuple)):
+            raise AnalysisError(f'{st.value.func.value.id}.extend: argument is not a comprehension of tuple literals over one list without a filter')
+        comps = self.plist(a.generators[0].iter)
+        if comps is None:
+            raise AnalysisError(f'{st.value.func.value.id}.extend: the list `{pf.nsrc(a.generators[0].iter)[:60]}` the rows are built from is not a recognised parent-id list')
+        v = a.generators[0].target.id
+        saved = self.env.get(v)
+        row = ast.copy_location(ast.Expr(value=ast.Call(func=ast.Attribute(value=ast.Name(id=st.value.func.value.id, ctx=ast.Load()), attr='append', ctx=ast.Load()), args=[a.elt], keywords=[])), st)
+        ast.fix_missing_locations(row)
+        for source, el in comps:
+            self.env[v] = el
+            self._quant.append(source)
+            self._sink(row)
+            self._quant.pop()
+        if saved is None:
+            self.env.pop(v, None)
+        else:
+            self.env[v] = saved
+        return True
+
     def stmt(self, st: ast.stmt, file: str) -> None:
+        if self._sink_extend(st):
+            return
         if isinstance(st, ast.Assign) and len(st.targets) == 1:
             self._havoc_escapes(st.value)
             self._assign(st.targets[0], st.value)
@@ -543,6 +621,15 @@ class IdFlow:
                 return
         if isinstance(st, (ast.Expr, ast.Assert, ast.Pass, ast.Import, ast.ImportFrom, ast.Global, ast.Nonlocal, ast.Delete, ast.Return, ast.Raise)):
             self._havoc_escapes(st)
+            # a call whose value is thrown away and that receives an id may be a check that rejects (a helper that was not inlined: nested def, method,
+            # coroutine): "no rejecting test bounds the id" cannot be concluded for the ids it sees
+            if isinstance(st, ast.Expr):
+                c = st.value.value if isinstance(st.value, ast.Await) else st.value
+                if isinstance(c, ast.Call) and not (isinstance(c.func, ast.Attribute) and c.func.attr in ('append', 'extend', 'add', 'insert', 'update', 'setdefault', 'info', 'debug', 'warning',
+                                                                                                           'error', 'exception', 'write', 'put')):
+                    at = self.atoms(c)
+                    if at:
+                        self.undecided.append((f'{file}:{st.lineno}: `{pf.nsrc(c.func)}(..)` receives the id and is not analysed (it may reject)', at))
             if isinstance(st, ast.Delete):
                 self._havoc_stores(st)
             return
